@@ -180,6 +180,14 @@ def check(repo: Repo, R) -> None:
                 # every store (and the eviction) lies in the branch that does not raise
                 frz = all(any(t is n.test and pol == live for t, pol in shared.path_conditions(fa.node, x)) for x in list(stores) + list(ev_loops))
         R.check(frz, rule, key_of(fa, f"{cls}-freeze-guard"), fa.site, f"{cls}._add refuses additions after elaboration before storing anything: {frz}", why="an elaborated definition is modified")
+        # the refusal comes before anything is changed — the value's own name included (it may be an attribute already held)
+        sa_ = ci.methods["__setattr__"]
+        namings = [st for st in au.stmts(sa_.node) if isinstance(st, ast.Assign) and ast.unparse(st.targets[0]) == "val.name"]
+        guards = [n for n in au.walk_no_nested(sa_.node) if isinstance(n, ast.If) and "_elaborated" in ast.unparse(n.test) and (au.raises(n.body, noret) != au.raises(n.orelse, noret))]
+        named_after = bool(namings) and bool(guards) and all(any(any(t is g.test and pol == (not au.raises(g.body, noret)) for t, pol in shared.path_conditions(sa_.node, nm_)) for g in guards) for nm_ in namings)
+        R.check(named_after, rule, key_of(sa_, f"{cls}-setattr-freeze-guard"), sa_.site,
+                f"{cls}.__setattr__ names the value only where the definition is known not to be elaborated (the refusal comes first): {named_after}",
+                why="`m.y = m.x` on an elaborated module is refused but leaves x renamed to y: the next export of the unchanged design differs")
         for meth in ("add", "__setattr__"):
             m = ci.methods[meth]
             asserts = [c for c in au.calls_in(m.node) if dotted(c.func) == sp["assert_fn"]]
